@@ -175,11 +175,13 @@ def probe(M, path, anns, mode, is_method):
     f = _get(M, path)
     out = []
     out.append(['name', getattr(f, '__name__', '<none>')])
-    out.append(['qualname', getattr(f, '__qualname__', '<none>')])
+    if not mode.startswith('clinic'):
+        # binding=False functions are builtins; the statement is about binding=True
+        out.append(['qualname', getattr(f, '__qualname__', '<none>')])
     out.append(['module_ok', getattr(f, '__module__', None) == M.__name__])
     doc = getattr(f, '__doc__', None)
     sigline = None
-    if mode == 'plain':
+    if mode in ('plain', 'clinic-closure'):
         out.append(['doc', doc])
     elif mode in ('python', 'c'):
         if compiled:
@@ -201,7 +203,7 @@ def probe(M, path, anns, mode, is_method):
         else:
             out.append(['doc', (_inspect.cleandoc(doc) or None) if doc else None])
     real = _real_sig(f, False)
-    if mode != 'clinic':
+    if not mode.startswith('clinic'):
         out.append(['signature', real])
         out.append(['defaults', _sig(getattr(f, '__defaults__', '<none>'))])
         out.append(['kwdefaults', _sig(getattr(f, '__kwdefaults__', '<none>'))])
@@ -216,7 +218,7 @@ def probe(M, path, anns, mode, is_method):
                 ann.append([k, _dump(text)])
         extra = sorted(set(have) - set(anns))
         out.append(['annotations', ann + [['extra', extra]]])
-    if mode != 'plain':
+    if mode not in ('plain', 'clinic-closure'):
         if compiled:
             emb = _parse_line(sigline, M, mode) if sigline else 'no-signature-line'
             if isinstance(emb, list) and emb and emb[0][0] in ('self', 'cls'):
@@ -284,6 +286,13 @@ def expr_features(src):
                 feats.add('postfix-on-operator')
             if isinstance(v, ast.Constant) and isinstance(v.value, (int, float)) and isinstance(n, ast.Attribute):
                 feats.add('attribute-of-number')
+        if isinstance(n, ast.Tuple) and len(n.elts) == 1:
+            feats.add('one-tuple')
+        if isinstance(n, ast.Compare) and any(isinstance(o, (ast.In, ast.NotIn)) for o in n.ops) and \
+                any(isinstance(c, (ast.Tuple, ast.List, ast.Set)) for c in n.comparators):
+            feats.add('in-literal-container')
+        if isinstance(n, ast.Call):
+            feats.add('call')
         if isinstance(n, ast.Constant):
             if isinstance(n.value, str) and not n.value.isascii():
                 feats.add('non-ascii-str')
@@ -395,7 +404,10 @@ def main(ck):
             anns = {p[0]: p[3] for p in f['info']['params'] if p[3]}
             if f['info']['returns']:
                 anns['return'] = f['info']['returns']
-            cases.append({'x': 'probe(M, %r, %r, %r, %r)' % (f['path'], anns, cell, f['is_method']), 't': '%s/%s' % (cell, f['scope']),
+            # embedsignature only treats module-level functions and methods ("Python visible functions and classes"):
+            # closures keep their docstring and are probed like the plain cell (clinic: the binding=False attributes)
+            mode = cell if not f['scope'].startswith('closure') else ('plain' if cell != 'clinic' else 'clinic-closure')
+            cases.append({'x': 'probe(M, %r, %r, %r, %r)' % (f['path'], anns, mode, f['is_method']), 't': '%s/%s' % (cell, f['scope']),
                           'fn': f['name']})
             nparens[cell] += f['info']['nparens']
             ndefaults[cell] += sum(1 for p in f['info']['params'] if p[2] is not None)
